@@ -45,6 +45,7 @@ package store
 //@     assert[C19:part-key-is-name-dot-part-i] arg1 == "blobParts" && arg2 == sprintf("%s.part%d", blobName, i) && arg2 == ID
 //@   send errs
 //@     assert[C19:only-errors-are-queued] arg1 != nil
+//@     assert[C19:error-queue-never-blocks-a-writer] chlen(errs) < chcap(errs)
 //@   recv errs
 //@     assume ret0 != nil
 //@   go writeBlobParts$1
@@ -54,7 +55,7 @@ package store
 //@   ensures[C19:one-part-per-window-in-order] r1 == nil ==> len(r0) == len(bytes) / 1000000 + 1 && puts == len(r0) && forall(j, 0, len(r0), r0[j] == sprintf("%s.part%d", blobName, j))
 //@   ensures[C19:no-names-on-error] r1 != nil ==> len(r0) == 0
 //@   loop 1
-//@     invariant[C19:split-progress] 0 <= i && i <= partCount && partCount == len(bytes) / 1000000 + 1 && len(partNames) == i && puts == i && errs != nil && !closed(errs)
+//@     invariant[C19:split-progress] 0 <= i && i <= partCount && partCount == len(bytes) / 1000000 + 1 && len(partNames) == i && puts == i && errs != nil && !closed(errs) && chcap(errs) == partCount && 0 <= chlen(errs) && chlen(errs) <= i
 //@     invariant[C19:names-in-order] forall(j, 0, i, partNames[j] == sprintf("%s.part%d", blobName, j))
 
 //@ func newBlob props(C19,C07)
